@@ -129,6 +129,7 @@ def _next_chip(E, args, kwargs, st, node):
 
 @contract("rig/place_and_route/place/sequential.py::place@forbody:3")
 class SequentialPlaceStep:
+    fragment_head = "for vertex in movable_vertices:"
     """The vertex is put on the first chip offered on which, for EVERY resource it needs, enough is still free; that chip's free
     resources shrink by exactly the vertex's needs and none becomes negative; every other chip and every other vertex's placement
     is untouched; the only failure is InsufficientResourceError.  (Dropped by the extraction: constraint handling and vertex / chip
